@@ -89,6 +89,13 @@ impl QFiles {
         ];
         QFiles { shape, big, subsets, uni_cfgs }
     }
+    /// keeps only the first `n` (layout, padding) variants of the universe family
+    pub fn limit_universe_variants(mut self, n: usize) -> QFiles {
+        // variants 0 (single block, L0) and 3 (700-byte values, L2) are the most different
+        let keep = [0usize, 3, 1, 2];
+        self.uni_cfgs = keep.iter().take(n).map(|i| self.uni_cfgs[*i]).collect();
+        self
+    }
     pub fn len(&self) -> usize {
         self.shape.len() + self.big.len() + self.subsets.len() * self.uni_cfgs.len()
     }
